@@ -163,6 +163,17 @@ func expectInterp(before *gen.Node, runtime *EnvNode, prefer bool) *interpExpect
 			if e1 != nil || e2 != nil {
 				ex.err = true
 				ex.envAfter = envM
+				// a later rename colliding with a sibling would put the block outside the domain
+				for j := i + 1; j < len(envField.Keys); j++ {
+					nk, e := interpolate.Interpolate(envM, envField.Keys[j])
+					if e == nil && nk != envField.Keys[j] {
+						for jj, other := range live {
+							if jj != j && other == nk {
+								ex.collision = true
+							}
+						}
+					}
+				}
 				return ex
 			}
 			if intk != k {
@@ -378,6 +389,15 @@ func runInterp(c *engine.Ctx, focus string) {
 	c.Sample = map[string]any{"format": format, "document": truncate(string(src), 1500), "runtime_env": runtime.contents(), "prefer_runtime": prefer,
 		"case_insensitive": ci, "ref_classes": classes}
 
+	if ex.collision {
+		// outside the property's domain (two sibling keys end up with the same
+		// name, or an env-block rename lands on a sibling): checked before the
+		// error expectation, because a collision can delete the very entry whose
+		// expansion would have failed.
+		c.Probe("sibling_key_collision_excluded")
+		c.Fingerprint(false, "collision")
+		return
+	}
 	if ex.err {
 		c.Probe("expected_error_runs")
 		if err == nil {
@@ -393,12 +413,6 @@ func runInterp(c *engine.Ctx, focus string) {
 	if err != nil {
 		c.Fail(focus+".unexpected-error", "Interpolate error", "Interpolate returned %v but every string expands without error in the reference\ndocument (%s):\n%s", err, format, truncate(string(src), 1200))
 	}
-	if ex.collision {
-		c.Probe("sibling_key_collision_excluded")
-		c.Fingerprint(false, "collision")
-		return
-	}
-
 	// ---- C10 oracles: block, Set history, env contents
 	gotEnv := after.Get("Env")
 	wantEnv := ex.tree.Get("Env")
